@@ -273,8 +273,15 @@ def run_unit(unit, want_canary=True, rlimit=None):
             n += len(re.findall(r'\bassert(_eq|_ne)?!?\s*\(', code))
         return n
 
+    def lookup(q):
+        if q in bd:
+            return bd[q]
+        # functions inside `mod x { .. }` of the template are reported as x::Type::name
+        c = [k for k in bd if k.endswith('::' + q)]
+        return bd[c[0]] if len(c) == 1 else None
+
     for (a, b, q) in ranges:
-        info = bd.get(q)
+        info = lookup(q)
         if info is None:
             continue
         res['functions'].append({'name': q, 'tags': tags_of(q), 'mode': info['mode'], 'success': info['success'],
@@ -376,11 +383,16 @@ def run_unit(unit, want_canary=True, rlimit=None):
         cr = run_verus(cpath, rlimit)
         cbd = breakdown(cr['json'])
         rejected, accepted, missing = [], [], []
+        def clookup(qq):
+            if qq in cbd:
+                return cbd[qq]
+            c = [k for k in cbd if k.endswith('::' + qq)]
+            return cbd[c[0]] if len(c) == 1 else None
         for q in cnames:
             qq = q + '__canary'
-            if qq not in cbd:
+            if clookup(qq) is None:
                 missing.append(q)
-            elif cbd[qq]['success']:
+            elif clookup(qq)['success']:
                 accepted.append(q)
             else:
                 rejected.append(q)
